@@ -220,9 +220,9 @@ C04Build(e) ==
                         /\ {r.c[1][2], r.c[2][2]} = {1, -1}
                         /\ r.i \in internal
                         /\ {r.c[1][1], r.c[2][1]} = SepCells(m, fr.ifaces[r.i]))}
-      rhsBad == {q \in DOMAIN P.rows : LET r == P.rows[q] IN ~Close(r.rhs, Mul(r.T, r.turn), 5 + Abs(r.rhs) \div 100000)}
+      rhsBad == {q \in DOMAIN P.rows : LET r == P.rows[q] IN P.in_range /\ ~Close(r.rhs, Mul(r.T, r.turn), 5 + Abs(r.rhs) \div 100000)}
       signBad == {q \in DOMAIN P.rows \ structBad : LET r == P.rows[q]  ph == PhysOf(env, fr.ifaces[r.i]) IN
-                      /\ ph # 0 /\ r.T > 1000 /\ Abs(env.E[ph].theta) > 20000 /\ Abs(r.rhs) > 100 /\ CentreCell(ph) # 0
+                      /\ P.in_range /\ ph # 0 /\ r.T > 1000 /\ Abs(env.E[ph].theta) > 20000 /\ Abs(r.rhs) > 100 /\ CentreCell(ph) # 0
                       /\ LET plus == IF r.c[1][2] = 1 THEN r.c[1][1] ELSE r.c[2][1]
                               minus == IF r.c[1][2] = 1 THEN r.c[2][1] ELSE r.c[1][1]
                           IN  ~((r.rhs > 0 /\ plus = CentreCell(ph)) \/ (r.rhs < 0 /\ minus = CentreCell(ph)))}
